@@ -72,6 +72,8 @@ def expand(spec):
     keys = list(keep)
     if spec["toggle"]:
         keys += ["on_" + k for k in plain if _h(seed, "on_" + k, "d") % 100 < dens]
+        if spec.get("off", True) and seed % 3 == 0:
+            keys.append("off")      # a toggle remote may still store a plain off code; it must not be used
     elif spec.get("off", True):
         keys.append("off")
     if spec.get("fun", False):
